@@ -80,6 +80,7 @@ type Engine struct {
 	inAtomic    bool
 	NoDiamond   bool
 	Diamonds    int
+	Folded      int
 }
 
 type inputArr struct {
@@ -571,6 +572,7 @@ func (e *Engine) extendPC(st *State, c *Term) {
 // queued and discharged in one query per path segment (see flush).
 func (e *Engine) require(st *State, cond *Term, kind, label string, where ssa.Instruction) {
 	if cond.IsTrue() {
+		e.Folded++ // decided by the term simplifier on this path (concrete types, known bits): no solver call needed
 		return
 	}
 	w, site := e.whereOf(st, where)
